@@ -84,28 +84,24 @@ impl PrettyPrint {
         let n_spc = line.to_string().len() + 1;
         let spc = " ".repeat(n_spc);
 
-        // Left align the text
-        let mut first_non_ws = 0;
-        for (i, c) in text.chars().enumerate() {
-            if !c.is_whitespace() {
-                first_non_ws = i;
-                break;
-            }
-        }
-
-        // HACK: Use the text line so we have the same tab spacing
-        let mut base: String = text
-            .get(first_non_ws..)
-            .unwrap_or_default()
-            .chars()
-            .map(|c| if c.is_whitespace() { c } else { ' ' })
-            .collect();
+        // Left align the text. Columns count characters, so everything
+        // below works on characters, never on byte offsets.
+        let chars: Vec<char> = text.chars().collect();
+        let first_non_ws = chars.iter().position(|c| !c.is_whitespace()).unwrap_or(0);
 
         // Arrows pointing the the relevant position
         let end = end + 1;
         let arrows = "^".repeat(end.saturating_sub(start));
         let offset = start.saturating_sub(first_non_ws);
-        base.replace_range(offset.., &arrows);
+
+        // HACK: Use the text line so we have the same tab spacing
+        let mut base: String = (0..offset)
+            .map(|i| match chars.get(first_non_ws + i) {
+                Some(c) if c.is_whitespace() => *c,
+                _ => ' ',
+            })
+            .collect();
+        base.push_str(&arrows);
 
         let aligned = text.trim();
         format!("{spc} |\n {line} | {aligned}\n{spc} | {base}\n")
